@@ -575,13 +575,14 @@ func (g *FieldGen) MsgSpec(depth int) *T {
 	}
 	kids := []*T{mti, N("bm", A(strconv.Itoa(bl)), A(benc), A(bpref), A(auto))}
 	blockBits := eff * 8
-	maxBit := 3 * blockBits
+	maxBit := Pick(r, []int{3, 3, 3, 4, 5, 6}) * blockBits // most messages stay within three blocks; some need more
 	if auto == "0" {
 		maxBit = blockBits
 	}
 	nf := 1 + r.Intn(6)
 	ids := map[int]bool{}
-	boundary := []int{2, 64, 66, 128, 130, 192, blockBits, blockBits + 2, 2 * blockBits, 2*blockBits + 2}
+	boundary := []int{2, 64, 66, 128, 130, 192, blockBits, blockBits + 2, 2 * blockBits, 2*blockBits + 2,
+		3 * blockBits, 3*blockBits + 2, 4 * blockBits, 4*blockBits + 2, 5 * blockBits}
 	for tries := 0; len(ids) < nf && tries < 100; tries++ {
 		id := 2 + r.Intn(maxBit-1)
 		if r.Intn(3) == 0 {
